@@ -311,6 +311,9 @@ func (e *Engine) buildScript(decls, facts []string, goal string, negate bool) st
 	if needStr {
 		hdr.WriteString(preludeStr)
 	}
+	if strings.Contains(body, "gs.ix") || strings.Contains(specText.String(), "gs.ix") || strings.Contains(b.String(), "gs.ix") {
+		hdr.WriteString(preludeIx)
+	}
 	hdr.WriteString(preludeArith)
 	for _, o := range e.cs.Opaque {
 		all := body + specText.String()
